@@ -88,10 +88,23 @@ func TestC04(t *testing.T) {
 		pair := GenPair(rt, o)
 		if rapid.IntRange(0, 9).Draw(rt, "manytiny") == 0 {
 			n := rapid.IntRange(50, 250).Draw(rt, "ntiny")
+			lowAlpha := rapid.Bool().Draw(rt, "tinylowalphabet")
 			for i := 0; i < n; i++ {
 				sz := []int{0, 1, 7, 100}[i%4]
-				pair.New[fmt.Sprintf("tiny/t%03d", i)] = &Entry{Kind: KFile, Data: Bytes(uint64(i)+pair.PoolSeed, sz)}
+				data := Bytes(uint64(i)+pair.PoolSeed, sz)
+				if lowAlpha {
+					// short blocks over a tiny alphabet: different blocks of equal length with the same
+					// weak hash (e.g. {1,0,1} and {0,2,0}) become common
+					sz = 2 + i%5
+					data = make([]byte, sz)
+					r := NewRng(uint64(i)*977 + pair.PoolSeed)
+					for k := range data {
+						data[k] = byte(r.Intn(3))
+					}
+				}
+				pair.New[fmt.Sprintf("tiny/t%03d", i)] = &Entry{Kind: KFile, Data: data}
 			}
+			Ev.ProbeIf(lowAlpha, "many_tiny_low_alphabet_files(weak_hash_collisions)")
 			pair.New.Normalize()
 			Ev.Probe("many_tiny_files")
 		}
@@ -100,6 +113,8 @@ func TestC04(t *testing.T) {
 		sigSlice := drawSlicer(rt, "sigslice")
 		poolSlice := drawSlicer(rt, "poolslice")
 		spec := drawSched(rt)
+		eofWith := rapid.Bool().Draw(rt, "eofwith")
+		sigViaFile := rapid.Bool().Draw(rt, "sigviafile")
 
 		dir, cleanup := RunDir()
 		defer cleanup()
@@ -111,7 +126,7 @@ func TestC04(t *testing.T) {
 		s := &Sched{Spec: spec, MaxSteps: 200000}
 		var dr *DiffResult
 		s.Run(t, func() {
-			dr = Diff(oldDir, newDir, comp, DiffSeams{SourceSlice: srcSlice, Yield: s.Yield})
+			dr = Diff(oldDir, newDir, comp, DiffSeams{SourceSlice: srcSlice, Yield: s.Yield, EOFWith: eofWith, SigViaFile: sigViaFile})
 		})
 		if s.BudgetExceeded {
 			return
@@ -212,6 +227,20 @@ func TestC04(t *testing.T) {
 		}
 		if aerr != nil {
 			Violation(rt, "C04/pristine-assert", "AssertValid on a pristine build: %v", aerr)
+			return
+		}
+
+		// one ValidatorContext used for two different builds in a row (old build against its own
+		// signature, then the new build against its own): nothing may carry over
+		oc, oh, oerr := ComputeSig(oldDir)
+		Must(oerr, "signature of old build")
+		reused := &pwr.ValidatorContext{FailFast: true, Consumer: Quiet()}
+		if e1 := reused.Validate(context.Background(), oldDir, &pwr.SignatureInfo{Container: oc, Hashes: oh}); e1 != nil {
+			Violation(rt, "C04/pristine-assert", "fail-fast validation of the pristine old build: %v", e1)
+			return
+		}
+		if e2 := reused.Validate(context.Background(), newDir, si); e2 != nil {
+			Violation(rt, "C04/context-reuse", "the same ValidatorContext, used for the old build and then for the pristine new build, rejects the new build: %v", e2)
 			return
 		}
 
